@@ -144,8 +144,11 @@ class LineFileBase(SeqProp):
                         out.append("ok")
                         if len(content) < 3000 and not any(o.startswith("ok") for o in out[1:-1]):
                             # copies of the opened file object are made, read and dropped: the object itself stays usable
-                            cp = core.clone_probe(f, lambda o: (len(o), o.closed, [unwrap(o[i]) for i in range(min(len(o), 3))]),
-                                                  collect=True)
+                            try:
+                                cp = core.clone_probe(f, lambda o: (len(o), o.closed, [unwrap(o[i]) for i in range(min(len(o), 3))]),
+                                                      collect=True)
+                            except Exception as e_:  # noqa: the freshly opened file cannot even be read
+                                cp = f"the opened file cannot be read: {err_name(e_)}: {e_}"
                             if cp is not None:
                                 out[-1] = "mixin-mismatch copies of the file object: " + cp + " ;; ok"
                     elif k == "close":
